@@ -5,6 +5,7 @@ COMMON = [
     "Kani models the dev-profile semantics of Rust (debug assertions and overflow checks on); counterexamples are additionally replayed natively in dev and in an optimised, assertion-free profile",
     "shapes (enum variants, string and list lengths, list depths) are enumerated concretely up to the stated sizes; only payloads (every integer, float, boolean, byte, nullability bit) are symbolic",
     "std::fmt::format is stubbed to return an empty String in harnesses whose error paths format symbolic data (message text is never asserted)",
+    "<Type as Display>::fmt is stubbed to print nothing (only error messages render types) and std::sync::Arc::drop_slow is stubbed to leak instead of free (destructors have no observable effect here; the recursive drop glue of FieldValue::List is what makes CBMC explode wherever a value is dropped on a symbolic path)",
 ]
 VALS = [
     "Float64 payloads are assumed finite (documented invariant of FieldValue::Float64)",
@@ -18,6 +19,19 @@ def tiers(mod, extra_quick=(), extra_thorough=()):
 
 
 PROPS = {
+    "C22": {
+        "filters": tiers("c22"),
+        "harness_timeout": {"quick": 900, "thorough": 3000},
+        "bounds": {
+            "quick": "get_max_fold_count_limit / get_min_fold_count_limit on a fold with one count filter (=, !=, <, <=, >, >=) against a variable holding any i64 or any u64, and every count value (u64); one_of with lists of 1..2 integers; four two-filter combinations on one variable; collect_fold_elements on an empty fold with symbolic limits",
+            "thorough": "as quick plus all 36 ordered pairs of operators on one variable (signed and unsigned argument), one_of with 0 and 3 elements",
+        },
+        "outside": "everything around the limit arithmetic: the eligibility test that decides when truncation at the min limit is allowed (inline in compute_fold; the nested-fold defect of DESIGN 6 lives there), collect_fold_elements on non-empty folds (> 10 min with two DataContexts), count filters against tags, two filters against two different variables (a two-entry argument map exhausts memory: 35 GB after 4 min)",
+        "assumptions": COMMON + [
+            "std::sync::Arc::drop_slow is stubbed to do nothing (memory is leaked instead of freed): destructors of field values, types and IR have no observable effect, and their recursive drop glue is what made these functions unreachable before",
+            "the fold's count is a machine integer >= 0; 'the filter passes' is the numeric comparison of the count with the argument (decided for the real operator kernels by C07)",
+        ],
+    },
     "C06": {
         "filters": tiers("c06"),
         "harness_timeout": {"quick": 900, "thorough": 3000},
@@ -92,12 +106,12 @@ PROPS = {
         "assumptions": COMMON + VALS,
     },
     "C18": {
-        "filters": tiers("c18"),
+        "filters": tiers("c18", extra_quick=["c18::containers::"]),
         "bounds": {
-            "quick": "every i64 and every u64 source into each of i8,i16,i32,i64,isize,u8,u16,u32,u64,usize; Option<int> (4 pairs); null -> None; bool and f64 identity; integer target from null/bool source is an error",
+            "quick": "every i64 and every u64 source into each of i8,i16,i32,i64,isize,u8,u16,u32,u64,usize; Option<int> (4 pairs); null -> None; bool and f64 identity; integer target from null/bool source is an error; Vec<i64> / Vec<u8> / (i64,u64) tuple targets from two-element integer lists (all payloads; wrong tuple length is an error); String target from strings of 0..=2 ASCII bytes; String from integer is an error",
             "thorough": "as quick plus 11 more Option<int> pairs, integer targets from float and string sources, bool from integer",
         },
-        "outside": "f32 (lossy by design); String / Vec / tuple / struct / map targets (SeqDeserializer, BTreeMap rows) — not reachable within the caps",
+        "outside": "f32 (lossy by design); struct / map targets, i.e. whole rows through try_into_struct (a one-entry BTreeMap row runs out of memory after 215-350 s); sequences longer than 2; strings longer than 2 bytes as decode targets",
         "assumptions": COMMON + VALS + ["serde's own primitive Deserialize impls are part of the code under test, not stubbed"],
     },
 }
